@@ -364,7 +364,7 @@ func run(v avfs.VFS, o opT) result {
 		r.do("", func(s *sub) error {
 			sv, err := v.Sub(p)
 			if err == nil {
-				k, msg := fsx.Guard(func() { s.Val = strings.Join(fsx.Dump(sv, "/", fsx.DumpOpts{}), " | ") })
+				k, msg := fsx.Guard(func() { s.Val = strings.Join(noLinkTargets(fsx.Dump(sv, "/", fsx.DumpOpts{})), " | ") })
 				if k != "" {
 					s.Val = k + " while dumping the sub file system: " + msg
 				}
@@ -511,6 +511,19 @@ func runSub(v avfs.VFS, o opT, deny bool) (res result, viewSymlink bool) {
 	}
 
 	return r.res, viewSymlink
+}
+
+// noLinkTargets removes from a dump (fsx.Dump) what Readlink answered for the
+// symbolic links: a view that does not advertise FeatSymlink refuses Readlink
+// (see noSymlinkResult); the targets are compared through the node graphs.
+func noLinkTargets(lines []string) []string {
+	for i, l := range lines {
+		if j := strings.Index(l, " -> "); j >= 0 && strings.Contains(l[:j], " l ") {
+			lines[i] = l[:j]
+		}
+	}
+
+	return lines
 }
 
 // noSymlinkResult is the answer of a file system that does not advertise
